@@ -597,6 +597,27 @@ func (g *gen) specCall(e *env, n *ast.CallExpr) sval {
 			return sval{t: v, gt: tInt, sort: "Int"}
 		}
 		return sval{t: "0", gt: tInt, sort: "Int"}
+	case "callsHere":
+		// callsHere(NAME): how many calls named NAME were executed since the innermost enclosing loop was entered
+		// (ghost: the call counter minus its value when that loop began)
+		id, ok := n.Args[0].(*ast.Ident)
+		if !ok {
+			g.specFail(n, "callsHere(NAME)")
+		}
+		var best *loopInfo
+		for _, li := range g.loops {
+			if li.body[g.curBlock] && (best == nil || len(li.body) < len(best.body)) {
+				best = li
+			}
+		}
+		if best == nil {
+			g.specFail(n, "callsHere(): no loop here")
+		}
+		cur := "0"
+		if v, ok := e.st.heap["GHOST.calls."+id.Name]; ok {
+			cur = v
+		}
+		return sval{t: app("-", cur, g.heapVar(e.st, fmt.Sprintf("ITER.c0.%d.%s", best.ordinal, id.Name), "Int")), gt: tInt, sort: "Int"}
 	case "resultOf":
 		// resultOf(NAME): the (first) result of the latest call named NAME this function has executed (ghost;
 		// unconstrained on a path without such a call)
